@@ -3,12 +3,12 @@
 (patch.diff, demo.rs, meta.json enriched with what was run here) and prints the kill matrix."""
 import json, os, shutil, glob
 rows = []
-for d in sorted(glob.glob('/tmp/mut-out/C*/m*')) + sorted(glob.glob('/tmp/mut-out2/C*/m*')):
+for d in sorted(glob.glob('/tmp/mut-out/C*/m*')) + sorted(glob.glob('/tmp/mut-out2/C*/m*')) + sorted(glob.glob('/tmp/mut-out3/C*/m*')):
     ev = os.path.join(d, 'eval.json')
     if not os.path.exists(ev):
         continue
     r = json.load(open(ev))
-    prop = r['property']; k = ('r2' if '/mut-out2/' in d else 'r1') + os.path.basename(d)
+    prop = r['property']; k = ('r3' if '/mut-out3/' in d else 'r2' if '/mut-out2/' in d else 'r1') + os.path.basename(d)
     ok = r.get('patch_applies') and r.get('baseline_suite_passes_with_mutant') and r.get('serde_lib_suite_passes_with_mutant') and r.get('demo_fails_with_mutant') and r.get('demo_passes_without_mutant')
     try:
         meta = json.load(open(os.path.join(d, 'meta.json')))
